@@ -54,7 +54,7 @@ for ix in range(9):
 
 EV = ['IsValid', 'Type', 'Flags', 'Timestamp', 'ServerID', 'Length', 'NextPosition', 'IsFormatDescription', 'IsQuery',
       'IsRotate', 'IsXID', 'IsIntVar', 'IsRand', 'IsPreviousGTIDs', 'IsRowsQuery', 'IsTableMap', 'IsWriteRows',
-      'IsUpdateRows', 'IsDeleteRows', 'Format', 'Rotate', 'IntVar', 'Rand', 'TableID']
+      'IsUpdateRows', 'IsDeleteRows', 'Format', 'Rotate', 'IntVar', 'Rand', 'TableID', 'Query']
 for m in EV:
     runs['ev-' + m] = {'func': 'binlogEvent.' + m}
 runs['ev56-IsGTID'] = {'func': 'mysql56BinlogEvent.IsGTID'}
@@ -242,7 +242,7 @@ props['C15'] = {
 }
 props['C16'] = {
     'level': 'proof',
-    'claim': "Each header accessor equals the documented little-endian field at its documented offset; event classification uses the documented type codes; Format/Rotate/IntVar/Rand/TableID decode exactly the documented body layout (server version = 50-byte field with trailing NULs removed, header-size table and checksum byte positions for any table size); StripChecksum returns the same bytes minus the last four for CRC32 and the unchanged event for off/undefined, so every accessor reads the same content with and without checksum.",
+    'claim': "Each header accessor equals the documented little-endian field at its documented offset; event classification uses the documented type codes; Format/Rotate/IntVar/Rand/TableID decode exactly the documented body layout; Query yields the database, the SQL text and the character set of the last Q_CHARSET_CODE status variable found by walking the block with the documented size of every preceding variable (recursive spec function specQScan, loop invariant with a ghost cursor), or an error exactly when the text position or a variable overflows (server version = 50-byte field with trailing NULs removed, header-size table and checksum byte positions for any table size); StripChecksum returns the same bytes minus the last four for CRC32 and the unchanged event for off/undefined, so every accessor reads the same content with and without checksum.",
     'note': "Trusted: govc, solvers, bytes.TrimRight library contract (single-byte cutset). Header lengths >= 250 are excluded for TableID (8-bit offset arithmetic in the code; observation O4).",
     'technique': GEN,
     'runs': [{'use': 'ev-' + m} for m in EV] + ['ev56-IsGTID', 'evmaria-IsGTID', 'ev56-StripChecksum', 'evmaria-StripChecksum'],
@@ -260,6 +260,64 @@ props['C20'] = {
     'runs': ['json-column', 'json-event', 'json-tx'],
 }
 
+# ---- binary JSON columns (C14) ----
+CELL_OPQ = 'specCellLen,specCellText,specCellOK'
+runs['cell-json'] = {'func': 'CellBytes', 'set': 'typ=245', 'unwind': 9, 'opaque': 'specJSONDocText,specJSONDocOK'}
+runs['len-json']['opaque'] = 'specJSONDocText,specJSONDocOK'
+runs['jsoncol-readVariableLength'] = {'func': 'readVariableLength', 'unwind': 6}
+JSON_LEAF = ['readOffsetOrSize', 'printJSONLiteral', 'printJSONInt16', 'printJSONUint16', 'printJSONInt32', 'printJSONUint32',
+             'printJSONInt64', 'printJSONUint64', 'printJSONDouble', 'printJSONString', 'printJSONDate', 'printJSONDateTime', 'printJSONTime']
+for f in JSON_LEAF:
+    runs['jsoncol-' + f] = {'func': f}
+# the mutual recursion of the printers is cut at the contracts: in each unit the specification functions of the
+# level below are opaque (uninterpreted; equal arguments give equal texts), which is all the unit needs
+for f, opq in [('printJSONDecimal', ''), ('printJSONOpaque', ''),
+               ('printJSONValue', ',specJObjText,specJArrText,specJObjOK,specJArrOK'),
+               ('printJSONValueEntry', ',specJSONValueText,specJSONValueOK'),
+               ('printJSONArray', ',specJEntryText,specJEntryOK'),
+               ('printJSONObject', ',specJEntryText,specJEntryOK'),
+               ('printJSONData', ',specJObjElems,specJArrElems,specJObjOK,specJArrOK')]:
+    runs['jsoncol-' + f] = {'func': f, 'opaque': CELL_OPQ + opq}
+JSON_RUNS = ['jsoncol-readVariableLength'] + ['jsoncol-' + f for f in JSON_LEAF] + ['jsoncol-' + f for f in
+             ['printJSONDecimal', 'printJSONOpaque', 'printJSONValue', 'printJSONValueEntry', 'printJSONArray', 'printJSONObject', 'printJSONData']] + ['cell-json']
+props['C14'] = {
+    'level': 'proof',
+    'claim': "For every well-formed binary JSON document (specJSONDocOK: every offset, count, size prefix and payload inside the buffer; literals, 16/32/64-bit integers, doubles, strings, opaque DATE/TIME/DATETIME/DECIMAL; small and large containers at any nesting depth, inlined and out-of-line values) the bytes CellBytes returns for a JSON cell are exactly specJSONDocText of the document — an independent recursive description of the rendered text written from the binary format (keys, values, order, nesting; signed/unsigned by type; inlining by format). Each of the 23 printer functions is verified against its piece of that description for all inputs (loops by invariant, recursion cut at contracts; the size-prefix loop is completely unrolled, 5 bytes being the format's maximum). Defect F11 (negative opaque TIME) found and repaired.",
+    'note': "Trusted: govc, solvers, the specification itself (that specJSONDocText is 'the same document' is by reading it, ~150 lines in zz_vc_jsoncol_verif.go), strconv.Append{Int,Uint,Float} and fmt verbs (library contracts), the DECIMAL payload through CellBytes' own contract (C11). Strings and keys are copied verbatim (no escaping), as the property's quantifier excludes quote characters. Documents that are not well formed or hold unsupported opaque types are outside the claim (the code returns an error or panics on them; panics on corrupt input are not part of C14). Termination not proved.",
+    'technique': GEN + "; buffer contracts over the text before the call (BufOld), guarded alternatives for conditional texts",
+    'trusted': ["strconv.AppendInt/AppendUint/AppendFloat, fmt.Fprintf verbs %02d %04d %06d %d (library contracts)"],
+    'runs': JSON_RUNS,
+    'assumptions': ["the JSON value is well formed (specJSONDocOK) — what an independent writer of the format produces",
+                    "in each unit the specification functions of the callee level are uninterpreted (their definitions are used in the callee's own unit)"],
+}
+
+# ---- GTID events and sets ----
+runs['gtid-ev56'] = {'func': 'mysql56BinlogEvent.GTID'}
+runs['gtid-evmaria'] = {'func': 'mariadbBinlogEvent.GTID'}
+runs['gtid-iv-contains'] = {'func': 'interval.contains'}
+runs['gtid-56-containsgtid'] = {'func': 'Mysql56GTIDSet.ContainsGTID', 'ifacetag': 'replication.GTID=replication.Mysql56GTID'}
+runs['gtid-maria-contains'] = {'func': 'MariadbGTIDSet.ContainsGTID', 'ifacetag': 'replication.GTID=replication.MariadbGTID'}
+runs['gtid-maria-add'] = {'func': 'MariadbGTIDSet.AddGTID', 'ifacetag': 'replication.GTID=replication.MariadbGTID'}
+
+props['C18'] = {
+    'level': 'other',
+    'explanation': "Partial, by contract on the real code. Decided for all inputs: membership (Mysql56GTIDSet.ContainsGTID) agrees with the set-of-pairs model — for every set whose interval list for the GTID's server id is in canonical form (non-empty intervals, pairwise ordered and disjoint) and every Mysql56GTID, the result is true exactly if some interval of that server id covers the sequence number (loop invariant over the interval list of unbounded length; the map is a symbolic total function from 16-byte ids to slices); interval.contains is interval inclusion. Not decided: Contains / Equal / AddGTID / String (Go map iteration over an unbounded key set, sort.Sort with an interface-typed comparator and copy-on-add through nested appends are outside the generator's subset; no bounded stand-in was built), hence neither superset / equality agreement nor canonical-form preservation and non-aliasing of AddGTID.",
+    'claim': "Membership test of MySQL 5.6 GTID sets agrees with the mathematical model for all canonical sets (deductive, unbounded); superset / equality / AddGTID not covered.",
+    'note': "Trusted: govc (incl. its map model: a map value is a total function with a domain predicate), solvers. The dynamic type of the GTID argument is fixed to Mysql56GTID by the unit (other types return false on the first line of the function).",
+    'technique': GEN,
+    'runs': ['gtid-iv-contains', 'gtid-56-containsgtid'],
+    'assumptions': ["the GTID argument has dynamic type Mysql56GTID (unit parameter -ifacetag)"],
+}
+props['C19'] = {
+    'level': 'other',
+    'explanation': "Partial, by contract on the real code. Decided for all inputs: (a) GTID events decode to the identifiers the master wrote — for every event body of sufficient length and every valid format, mysql56BinlogEvent.GTID returns the 16 server-id bytes at header+1 and the little-endian sequence number at header+17, mariadbBinlogEvent.GTID returns sequence / domain from the body, the server id from the common header and the begin flag from FL_STANDALONE; (b) MariadbGTIDSet.ContainsGTID compares sequence numbers within the GTID's domain (true iff the entry of that domain has reached the sequence number, false if the domain is absent); (c) MariadbGTIDSet.AddGTID on a set with one position per domain returns a set that differs from the receiver exactly at that domain (greater of the two positions) or has the GTID appended, and never writes the receiver's memory (frame obligations; defect F12 repaired). Not decided: text round trips (String / Parse*, strconv and strings parsing, fmt, the flavor registry maps built in init), the SID-block writer / reader, PreviousGTIDs events.",
+    'claim': "GTID event decoding (both flavors), MariaDB set containment and copy-on-add proved for all inputs; textual and SID-block round trips not covered.",
+    'note': "Trusted: govc, solvers, encoding/binary model. The dynamic type of the GTID argument is fixed to MariadbGTID in the set units.",
+    'technique': GEN,
+    'runs': ['gtid-ev56', 'gtid-evmaria', 'gtid-maria-contains', 'gtid-maria-add'],
+    'assumptions': ["the GTID argument has dynamic type MariadbGTID in the set units (unit parameter -ifacetag); another dynamic type returns false / the receiver on the first lines of these functions"],
+}
+
 NA = {
 }
 
@@ -275,7 +333,7 @@ units = {
         "termination is not proved (partial correctness)",
         "machine integers are modelled exactly as bit-vectors of the Go type's width (nothing mathematical)",
     ],
-    'hook_commits': [],
+    'hook_commits': os.popen("git -C /repo log --reverse --format=%h --grep='^verif:'").read().split(),
     'notes': "All checks are ./check <id>; contracts live in /repo under //go:build verif (zz_vc_*_verif.go, zz_contracts_verif.go, internal/vspec).",
     'runs': runs,
     'properties': props,
